@@ -1116,7 +1116,7 @@ def run(chk):
         if not ok:
             raise pv.BuildError("extraction root does not compile", log)
     else:
-        ok, log = chk.prove(["extract/Extract_C04.vo"])
+        ok, log = chk.prove(["extract/Extract_C04.vo"], extra_props=["Properties_C20_source.v"])   # the preset loops as the translator reads them (gen_lattice.py)
     cfg = configuration(chk, ok, log)
     chk.trusted += ["harness/h_ed.cpp + harness/ed_common.h (scenario interpreter; dump of IndexClassification, IndexHamiltonian and of the matrix "
                     "HamiltonianPart::prepare assembles, before diagonalisation, symmetries ignored)",
@@ -1291,7 +1291,7 @@ def replay(chk, path):
         run(chk)
         return chk.finish()
     if not os.environ.get("C04_SKIP_PROVE"):
-        chk.prove(["extract/Extract_C04.vo"])
+        chk.prove(["extract/Extract_C04.vo"], extra_props=["Properties_C20_source.v"])
     else:
         pv.run_translators()
         pv.coq_make(["extract/Extract_C04.vo"])
